@@ -25,3 +25,11 @@ Theorem C04_client_oneway_consumes_no_reply : forall s k mo up, cs_idle s = true
   cs_finals s' = cs_finals s.
 Proof. exact oneway_consumes_no_reply. Qed.
 Print Assumptions C04_client_oneway_consumes_no_reply.
+
+(* tie: the functions this property's model describes by hand (not by translation) still have the pinned text; an
+   edit to one of them breaks this obligation and sends the check searching for a failing input *)
+From VL Require Import ShapeFacts.
+From VLG Require Import ShapeGen.
+Theorem C04_modelled_code_is_the_pinned_text : shapes_for_C04 = true.
+Proof. exact shapes_C04_ok. Qed.
+Print Assumptions C04_modelled_code_is_the_pinned_text.
